@@ -420,6 +420,30 @@ func init() {
 							Detail: fmt.Sprintf("path %s compiles to %q, its steps are %q", ps, got, want), Input: ps, Sub: k})
 					}
 				}
+				// every character of the path text counts: the text with one more character behind it,
+				// or with one character put in front of a quoted name, is another path or malformed -
+				// it cannot compile to the same node chain (index digits aside: 00 and -0 are 0)
+				base := p.PathString()
+				for _, x := range []string{"a", ".", "[", "]", "'", `"`, "0", "*", "$", " ", "x", "\\", ",", "-"} {
+					muts := []string{ps + x}
+					for i := 1; i < len(ps); i++ {
+						if ps[i] == '"' || ps[i] == '\'' {
+							muts = append(muts, ps[:i]+x+ps[i:])
+						}
+					}
+					for _, m := range muts {
+						var mp *gojson.Path
+						var merr error
+						pan, msg, _ := rt.Guard(func() { mp, merr = gojson.CreatePath(m) })
+						c.Eval(1)
+						if pan {
+							c.Violate(rt.Violation{Monitor: "path-parse", Entry: "CreatePath", Kind: "panic:" + rt.PanicClass(msg), Ctx: "mutated-grammar-path", Detail: "path " + rt.Q([]byte(m)) + ": " + msg, Input: m, Sub: k})
+						} else if merr == nil && mp != nil && mp.PathString() == base {
+							c.Violate(rt.Violation{Monitor: "path-parse", Entry: "CreatePath", Kind: "path-text-ignored", Ctx: shape,
+								Detail: fmt.Sprintf("path %q and path %q both compile to %q", ps, m, base), Input: m, Sub: k})
+						}
+					}
+				}
 				var docs []string
 				for i := 0; i < 10; i++ {
 					docs = append(docs, genPathDoc(r, 4))
